@@ -19,6 +19,7 @@ import (
 
 	"go.6river.tech/mmmbbb/verifhooks/export"
 
+	"verif/hist"
 	"verif/stats"
 	"verif/sut"
 )
@@ -320,6 +321,16 @@ func runC17Steps(ctx context.Context, s *sut.SUT, steps []struct {
 		}
 		if d := viewDiff(viewOf(ls.Subscriptions[0]), cur); d != "" {
 			return "list-mismatch", fmt.Sprintf("step %d: ListSubscriptions entry differs from what was set: %s", i, d), nontrivial
+		}
+		// ... and what is enforced: a subscription whose TTL (as reported) is at
+		// least a second must survive an expiry sweep run right now
+		if cur.TTL >= time.Second {
+			if _, err := hist.RunJob(ctx, s, "expired-subscriptions", 0, 100); err != nil {
+				return "harness", "expiry sweep: " + err.Error(), nontrivial
+			}
+			if _, err := s.Sub.GetSubscription(ctx, &pubsubpb.GetSubscriptionRequest{Subscription: c17S}); err != nil {
+				return "ttl-not-enforced", fmt.Sprintf("step %d: the subscription reports an expiration TTL of %v but an expiry sweep run immediately afterwards removed it (%v)", i, cur.TTL, err), nontrivial
+			}
 		}
 	}
 	return "", "", nontrivial
